@@ -187,6 +187,21 @@ def layoutByName (tbl : List StructDef) (nm : String) : Option Layout :=
   | none => none
   | some sd => layoutOf tbl 6 sd
 
+/-! ## Signature of a dispatch arm (shared by the generated table and the model) -/
+
+inductive Sig where
+  | proto (bit : Nat) | virtio (bit : Nat)
+  | sizeZero | sizeAny | sizeOf (ty : String)
+  | body (ty : String) | file (err : String) | vringfd | enable01
+  | frombits (ty : String) | convert
+  | call (method : String) | helper (fn : String)
+  deriving Repr, DecidableEq, Inhabited
+
+/-- conversions that cannot fail once the body validator has passed -/
+def Sig.redundant : Sig → Bool
+  | .frombits _ | .convert => true
+  | _ => false
+
 /-! ## Bytes -/
 
 abbrev Bytes := List UInt8
